@@ -25,6 +25,9 @@ def plan(tier, seed):
                 combos = [((n_,), 'm', 2 if nary else 1, 'f')]
                 if nary:
                     combos.append(((2,), 'mn', 2, 'f'))
+                if not heavy:
+                    two = nary or sum(1 for p in sp.params if p.kind == 'arr') >= 2
+                    combos.append(((2,), 'm', 2 if nary else 1, 'uu' if two else 'u'))      # unsigned ("Positive Integer") data
             else:
                 combos = [((3,), 'm', 2 if nary else 1, 'f'), ((2,), 'm', 3 if nary else 1, 'f'), ((2,), 'md', 2 if nary else 1, 'f'),
                           ((2,), 'm', 2 if nary else 1, 'i'), ((2, 2), 'm', 2 if nary else 1, 'f')]
@@ -101,8 +104,8 @@ def describe(tier):
                       + ', '.join(D.command_specs_cached()), 'mpilot/utils.py: insure_fuzzy, make_masked',
                       'mpilot/libraries/eems/mixins.py: validate_array_shapes'],
         'bounds': {
-            'quick': '2 cells, all mask placements and payloads symbolic; 2 inputs for n-ary commands (masked+masked, masked+nomask); 2 control points; every option value',
-            'thorough': '<=3 cells, shape (2,2), 2-3 inputs, masked / nomask / plain inputs, int64 and float64 data (CurveZScore commands: 2 cells)',
+            'quick': '2 cells, all mask placements and payloads symbolic; 2 inputs for n-ary commands (masked+masked, masked+nomask); 2 control points; every option value; float64 and unsigned (uint64) data',
+            'thorough': '<=3 cells (MeanToMid without zero-stripping: 4), shape (2,2), 2-3 inputs, masked / nomask / plain inputs, int64, uint64 and float64 data (CurveZScore commands: 2 cells)',
         },
         'outside': ['IEEE-754 rounding/overflow/NaN', 'hard masks', 'CSV/NetCDF mask creation (C17/C18)',
                     'paths leaving the real-number model (statistics of an all-missing array etc.)'],
